@@ -189,6 +189,12 @@ impl FromStr for Id {
             return Err(DecodeIdError::OddNumberOfCharacters);
         }
 
+        // Reject anything but ASCII hex digits up front: slicing below is by byte offsets
+        // (a multi-byte character would panic), and `from_str_radix` accepts a leading `+`.
+        if let Some(c) = s.chars().find(|c| !c.is_ascii_hexdigit()) {
+            return Err(DecodeIdError::InvalidHexCharacter(c.into()));
+        }
+
         let mut bytes = Vec::with_capacity(s.len() / 2);
 
         for i in 0..s.len() / 2 {
